@@ -34,6 +34,12 @@ Definition qsum (l : list Q) : Q := fold_right Qplus 0 l.
 Definition qlist_eqb (a b : list Q) : bool :=
   (Nat.eqb (length a) (length b)) && forallb (fun p => qeqb (fst p) (snd p)) (combine a b).
 
+(* approximate comparison for decimal (non-dyadic) streams: relative to max(1, |a|, |b|) *)
+Definition qclose (tol a b : Q) : bool :=
+  qleb (qabs (a - b)) (tol * pymax 1 (pymax (qabs a) (qabs b))).
+Definition qlist_close (tol : Q) (a b : list Q) : bool :=
+  Nat.eqb (length a) (length b) && forallb (fun p => qclose tol (fst p) (snd p)) (combine a b).
+
 (* index of the cases that failed, used by every generated cases file *)
 Fixpoint find_bad (i : nat) (l : list bool) : list nat :=
   match l with
